@@ -103,10 +103,18 @@ func runC01Git(c *Ctx) {
 		fc := script("fail-clean", `if [ -e "`+failFlag+`" ]; then cat >/dev/null; printf 'partial output'; exit 3; fi; exec tr A-Za-z N-ZA-Mn-za-m`)
 		exts = []extSpec{{"flaky", fc, "tr A-Za-z N-ZA-Mn-za-m"}}
 	}
+	// configured priorities only order the extensions: any non-negative
+	// numbers do, also sparse and two-digit ones; names may contain hyphens
+	prioBase := []int{0, 0, 3, 10, 41}[t.Choose(5, "extension-priority-base")]
+	hyphen := t.Bool(1, 3, "hyphenated-extension-name")
 	for i, e := range exts {
-		w.MustGit(u, "config", "lfs.extension."+e.name+".clean", e.clean)
-		w.MustGit(u, "config", "lfs.extension."+e.name+".smudge", e.smudge)
-		w.MustGit(u, "config", "lfs.extension."+e.name+".priority", fmt.Sprint(i))
+		name := e.name
+		if hyphen {
+			name = e.name + "-ext"
+		}
+		w.MustGit(u, "config", "lfs.extension."+name+".clean", e.clean)
+		w.MustGit(u, "config", "lfs.extension."+name+".smudge", e.smudge)
+		w.MustGit(u, "config", "lfs.extension."+name+".priority", fmt.Sprint(prioBase+i*7))
 	}
 	if ext {
 		c.Probe("pointer-extension-" + extKind)
